@@ -32,6 +32,9 @@ def make_chart(family):
         h.register_live_trace_callback(lambda line: None)
     h.start_at(t.S[0])
     t.log.clear()
+    # a second chart of the same class, constructed later and never used: whatever the first chart queues or defers is
+    # its own (the sibling's queues must stay empty, and constructing it must not disturb the first chart)
+    h.mc_sibling = charts.new_host("queued", **({"instrumented": False} if family == "plain" else {}))
     return t, h
 
 
@@ -50,8 +53,10 @@ def apply_impl(t, h, op):
         ret = "raised " + type(e).__name__
     # an event counts as dispatched where a state answers it (offers that merely bubble through s1 are not counted)
     disp = [x[0] for x in t.log[n0:] if x[0] in SIG and (x[1], SIG[x[0]]) in t.react]
+    sib = h.mc_sibling
+    leak = [names(sib.queue), names(sib.defer_queue)]
     return {"ret": ret, "dispatched": disp, "queue": names(h.queue), "deferred": names(h.defer_queue),
-            "state": charts.config_of(h)}
+            "state": charts.config_of(h), "sibling": leak if (leak[0] or leak[1]) else None}
 
 
 SAME = {}        # one Event object per signal, reused by the *_same operations (a client that keeps sending one object)
@@ -125,7 +130,7 @@ def apply_ref(q, dq, op):
         ret = _apply_ref(q, dq, op, disp)
     except RefRaise as e:
         ret = "raised " + e.args[0]
-    return {"ret": ret, "dispatched": disp, "queue": list(q), "deferred": list(dq), "state": CUR[0]}
+    return {"ret": ret, "dispatched": disp, "queue": list(q), "deferred": list(dq), "state": CUR[0], "sibling": None}
 
 
 def _apply_ref(q, dq, op, disp):
